@@ -408,6 +408,21 @@ theorem srv_sound (o : SrvObs) (x : SrvClause) (h : srvMonitor o = some x) :
   · rw [if_pos h3] at h; injection h with h; subst h; exact h3
   rw [if_neg h3] at h; cases h
 
+/-- A failing Connect: the monitor accepts the model's observation, and what it reports is what it says. -/
+theorem conn_monitor_accepts_model : connMonitor connFail = none := by decide
+
+theorem conn_sound (o : ConnObs) (x : ConnClause) (h : connMonitor o = some x) :
+    match x with
+    | .processLeft => o.err = true ∧ o.started = true
+    | .goroutineLeft => o.leak = true := by
+  unfold connMonitor at h
+  by_cases h1 : o.err = true ∧ o.started = true
+  · rw [if_pos h1] at h; injection h with h; subst h; exact h1
+  rw [if_neg h1] at h
+  by_cases h2 : o.leak = true
+  · rw [if_pos h2] at h; injection h with h; subst h; exact h2
+  rw [if_neg h2] at h; cases h
+
 /-- Non-vacuity: the monitor does reject. -/
 example : monitor {} { res := .unresp, eb := 3, gone := false } = some .childLeft := by decide
 example : monitor { term := .ign } { res := .exiterr, death := .sk, eb := 2 } = some .killWithoutTerm := by decide
